@@ -32,6 +32,7 @@ structure Lits (α : Type) where
   maxFactor : α     -- 10.0
   minPositive : α   -- f64::MIN_POSITIVE
   inf : α
+  stretch : α       -- 1.01 (last-step stretch)
   /-- KAPPA[0..5] -/
   kappa : Nat → α
 
@@ -164,7 +165,7 @@ def limits (L : Lits α) (P : Params α) (s : State α) : Sum (State α × α ×
   let s2 := if s1.h < P.hmin ∧ P.hmin > L.zero then { s1 with h := P.hmin, nEqual := 0, luCurrent := false } else s1
   let hSigned := P.direction * s2.h
   let xNew := s2.x + hSigned
-  if P.direction * (xNew - P.xend) > L.zero then
+  if P.direction * (s2.x + L.stretch * hSigned - P.xend) > L.zero then
     let stepToEnd := Num.abs (P.xend - s2.x)
     if Num.eqb stepToEnd L.zero then .inr (result P s2 .success s2.cnt)
     else
